@@ -494,11 +494,15 @@ class GridFlow(WidgetWrap[Pile], WidgetContainerMixin, WidgetContainerListConten
 
     def get_cursor_coords(self, size: tuple[int] | tuple[()]) -> tuple[int, int]:
         """Get cursor from display widget."""
+        if not self.contents:
+            return None
         self.get_display_widget(size)
         return super().get_cursor_coords(size)
 
     def move_cursor_to_coords(self, size: tuple[int] | tuple[()], col: int, row: int):
         """Set the widget in focus based on the col + row."""
+        if not self.contents:
+            return False
         self.get_display_widget(size)
         rval = super().move_cursor_to_coords(size, col, row)
         self._set_focus_from_display_widget()
@@ -520,5 +524,7 @@ class GridFlow(WidgetWrap[Pile], WidgetContainerMixin, WidgetContainerListConten
 
     def get_pref_col(self, size: tuple[int] | tuple[()]):
         """Return pref col from display widget."""
+        if not self.contents:
+            return None
         self.get_display_widget(size)
         return super().get_pref_col(size)
